@@ -25,6 +25,7 @@ class Ctx(object):
         self.pool = info["pool"]
         self.encs = []       # (step id of an enc on this object, kind of data)
         self.aux = info.get("aux", {})
+        self.open_gens = info.setdefault("open_gens", [])   # generators started and left suspended
 
     def msg(self):
         return self.pool[self.rng.randrange(len(self.pool))]
@@ -137,6 +138,8 @@ def hash_ops(has_bitlen=True, has_salt=False, update=True):
                       obj=x.obj)
             if x.rng.random() < 0.5:
                 x.pb.step(c, k="close", gen=g, cls=ABN, tag="close", kind=x.kind, obj=x.obj)
+            else:
+                x.open_gens.append(g)
         ops["iter_part"] = (ABN, iter_part)
 
         def bad_update(x, c):
@@ -250,6 +253,7 @@ def keccak_ops(sha3=False):
         m = rbytes(x.rng, (x.info["r"] // 8) * 2 + 3)
         g = x.call(c, "iterblocks", [B(m)], cls=ABN, tag="iter_part")
         x.pb.step(c, k="pull", gen=g, n=1, cls=ABN, tag="pull", kind=x.kind, obj=x.obj)
+        x.open_gens.append(g)
     ops["iter_part"] = (ABN, iter_part)
 
     def bad_bitlen(x, c):
@@ -328,6 +332,7 @@ def ubi_ops():
         m = rbytes(x.rng, x.info["nb"] * 2 + 3)
         g = x.call(c, "iterblocks", [B(m)], cls=ABN, tag="iter_part")
         x.pb.step(c, k="pull", gen=g, n=1, cls=ABN, tag="pull", kind=x.kind, obj=x.obj)
+        x.open_gens.append(g)
     ops["iter_part"] = (ABN, iter_part)
 
     def bad_type(x, c):
@@ -521,6 +526,7 @@ def mode_ops(ctr=False):
         g = x.call(c, "iterblocks", [B(m)], cls=ABN, tag="iter_part")
         x.pb.step(c, k="pull", gen=g, n=x.rng.randint(1, 2), cls=ABN, tag="pull", kind=x.kind,
                   obj=x.obj)
+        x.open_gens.append(g)
     ops["iter_part"] = (ABN, iter_part)
     def pad_poke(x, c):
         # the mode's padding object is a public attribute
@@ -585,6 +591,8 @@ def stream_ops():
                   obj=x.obj)
         if x.rng.random() < 0.3:
             x.pb.step(c, k="close", gen=g, cls=ABN, tag="close", kind=x.kind, obj=x.obj)
+        else:
+            x.open_gens.append(g)
     ops["ks_part"] = (ABN, ks_part)
 
     def bad_nonce(x, c):
@@ -608,10 +616,10 @@ def crc_ops():
 
     def crc(x, c):
         kw = {}
-        if x.rng.random() < 0.5:
-            kw["Xinit"] = x.rng.getrandbits(32)
-        if x.rng.random() < 0.5:
-            kw["Xfinal"] = x.rng.getrandbits(32)
+        if x.rng.random() < 0.7:
+            kw["Xinit"] = x.opt("xinit", lambda: x.rng.choice([0xffffffff, 0xffffffff, 0xffffffff, 0, x.rng.getrandbits(32)]))
+        if x.rng.random() < 0.6:
+            kw["Xfinal"] = x.opt("xfinal", lambda: x.rng.choice([0xffffffff, x.rng.getrandbits(32), 1]))
         x.call(c, "__call__", [B(x.msg()), {"obj": x.aux["table"]}], kw, tag="crc", obj=x.aux["crc"])
     ops["crc"] = (CHK, crc)
 
@@ -631,6 +639,26 @@ def crc_ops():
     def bad_type(x, c):
         x.call(c, "__call__", [{"s": "text"}], cls=BAD, tag="bad_type")
     ops["bad_type"] = (BAD, bad_type)
+    return ops
+
+
+def _resume(x, c):
+    """pull a generator that was started earlier on this object and left suspended"""
+    if not x.open_gens:
+        return False
+    g = x.rng.choice(x.open_gens)
+    x.pb.step(c, k="pull", gen=g, n=x.rng.randint(1, 2), cls=ABN, tag="resume", kind=x.kind, obj=x.obj)
+    if x.rng.random() < 0.3:
+        x.pb.step(c, k="close", gen=g, cls=ABN, tag="close", kind=x.kind, obj=x.obj)
+        x.open_gens.remove(g)
+    return True
+
+
+def _with_resume(ops, fallback):
+    def resume(x, c):
+        if not _resume(x, c):
+            ops[fallback][1](x, c)
+    ops["resume"] = (ABN, resume)
     return ops
 
 
@@ -889,7 +917,7 @@ def mk_ctr(rng, pb, px):
 def mk_salsa(rng, pb, px):
     ks = rng.choice([128, 256])
     r = {"kind": "Salsa20", "key": {"bits": [rng.getrandbits(ks), ks]}, "rounds": rng.choice([2, 2, 4, 8, 12, 20])}
-    return pb.obj(r), {"pool": make_pool(rng, [0, 1, 63, 64, 65, 130] if r["rounds"] < 12 else [0, 1, 63, 64])}
+    return pb.obj(r), {"pool": make_pool(rng, [0, 1, 63, 64, 65, 130, 200] if r["rounds"] < 12 else [0, 1, 63, 64, 130])}
 
 
 def mk_chacha(rng, pb, px):
@@ -904,24 +932,27 @@ def mk_crc(rng, pb, px):
            "table": pb.obj({"kind": "attr", "path": "crysp.crc.TABLE32_1"}),
            "fix": pb.obj({"kind": "attr", "path": "crysp.crc.crc32_fix"}),
            "fixpos": pb.obj({"kind": "attr", "path": "crysp.crc.crc32_fix_pos"})}
-    return o, {"pool": make_pool(rng, [0, 1, 4, 5, 9, 33]), "aux": aux}
+    pool = make_pool(rng, [0, 1, 4, 5, 9, 33])
+    a = pool[0] or b"seed"
+    pool = [a, a + pool[2], a[:max(1, len(a) // 2)], pool[1]]        # prefix-related messages
+    return o, {"pool": pool, "aux": aux}
 
 
 KINDS = {
-    "SHA1": (4, mk_sha1, hash_ops()),
-    "SHA2": (5, mk_sha2, hash_ops()),
-    "MD4": (3, mk_md4, hash_ops()),
-    "MD5": (3, mk_md5, hash_ops()),
+    "SHA1": (4, mk_sha1, _with_resume(hash_ops(), "iter_part")),
+    "SHA2": (5, mk_sha2, _with_resume(hash_ops(), "iter_part")),
+    "MD4": (3, mk_md4, _with_resume(hash_ops(), "iter_part")),
+    "MD5": (3, mk_md5, _with_resume(hash_ops(), "iter_part")),
     "MD6": (1, mk_md6, hash_ops(update=False)),
-    "Blake": (4, mk_blake, hash_ops(has_salt=True)),
-    "blake_singleton": (3, mk_blake_s, hash_ops(has_salt=True)),
+    "Blake": (4, mk_blake, _with_resume(hash_ops(has_salt=True), "iter_part")),
+    "blake_singleton": (3, mk_blake_s, _with_resume(hash_ops(has_salt=True), "iter_part")),
     "Blake2": (4, mk_blake2, blake2_ops()),
     "blake2_singleton": (4, mk_blake2_s, blake2_ops()),
-    "Keccak": (5, mk_keccak, keccak_ops()),
-    "keccak_singleton": (4, mk_keccak_s, keccak_ops()),
+    "Keccak": (5, mk_keccak, _with_resume(keccak_ops(), "iter_part")),
+    "keccak_singleton": (4, mk_keccak_s, _with_resume(keccak_ops(), "iter_part")),
     "SHA3": (2, mk_sha3, keccak_ops(sha3=True)),
     "Skein": (2, mk_skein, skein_ops()),
-    "UBI": (2, mk_ubi, ubi_ops()),
+    "UBI": (2, mk_ubi, _with_resume(ubi_ops(), "iter_part")),
     "HMAC": (4, mk_hmac, hmac_ops()),
     "TLSH": (2, mk_tlsh, tlsh_ops()),
     "tlsh_singleton": (2, mk_tlsh_s, tlsh_ops()),
@@ -931,12 +962,12 @@ KINDS = {
     "TDEA": (1, mk_tdea, cipher_ops()),
     "Serpent": (1, mk_serpent, cipher_ops()),
     "Threefish": (2, mk_threefish, cipher_ops()),
-    "ECB": (6, mk_ecb, mode_ops()),
-    "CBC": (6, mk_cbc, mode_ops()),
-    "CTR": (5, mk_ctr, mode_ops(ctr=True)),
-    "Salsa20": (2, mk_salsa, stream_ops()),
-    "Chacha": (2, mk_chacha, stream_ops()),
-    "crc": (2, mk_crc, crc_ops()),
+    "ECB": (6, mk_ecb, _with_resume(mode_ops(), "iter_part")),
+    "CBC": (6, mk_cbc, _with_resume(mode_ops(), "iter_part")),
+    "CTR": (5, mk_ctr, _with_resume(mode_ops(ctr=True), "iter_part")),
+    "Salsa20": (3, mk_salsa, _with_resume(stream_ops(), "ks_part")),
+    "Chacha": (3, mk_chacha, _with_resume(stream_ops(), "ks_part")),
+    "crc": (4, mk_crc, crc_ops()),
 }
 SINGLETONS = {"blake_singleton", "blake2_singleton", "keccak_singleton", "tlsh_singleton", "crc"}
 _KNAMES = sorted(KINDS)
@@ -989,6 +1020,23 @@ def all_fault_bigrams():
 
 
 _FB = all_fault_bigrams()
+
+
+def all_gen_interleavings():
+    out = []
+    for k in _KNAMES:
+        ops = KINDS[k][2]
+        if "resume" not in ops:
+            continue
+        chk = sorted(n for n in ops if ops[n][0] == CHK)
+        for a in sorted(n for n in ops if ops[n][0] == ABN and n != "resume"):
+            for c1 in chk:
+                for c2 in chk:
+                    out.append((k, a, c1, c2))
+    return out
+
+
+_GI = all_gen_interleavings()
 
 
 def _other(rng, cur, choices):
@@ -1133,6 +1181,7 @@ def _twin(rng, pb, n0, n1, o, info, keep_key=False):
             rec["key"] = {"bits": [rng.getrandbits(k["bits"][1]), k["bits"][1]]}
         pb.plan["objects"].append(rec)
     sinfo = dict(info)
+    sinfo["open_gens"] = []
     if "proxy" in sinfo:
         sinfo["proxy"] = sinfo["proxy"] + d
     if "aux" in sinfo:
@@ -1143,7 +1192,7 @@ def _twin(rng, pb, n0, n1, o, info, keep_key=False):
 class C10(Machine):
     prop = "C10"
     title = "one-shot results depend only on the arguments"
-    runs = (4000, 150000)
+    runs = (6000, 150000)
     components = {
         "real": ["crysp.sha SHA1/SHA2/SHA3", "crysp.md MD4/MD5/MD6", "crysp.blake Blake/Blake2 + module singletons",
                  "crysp.keccak Keccak + keccak_* singletons", "crysp.skein Skein/UBI/Tweak", "crysp.threefish",
@@ -1175,6 +1224,11 @@ class C10(Machine):
             # collaborator, checked op c right after it on the same object)
             fsteer = _FB[(idx // 5) % len(_FB)]
             kind = fsteer[0]
+        elif idx % 10 == 4:
+            # steered generator interleaving: start a generator and leave it suspended, make a
+            # checked call, resume the generator, make a checked call again
+            gsteer = _GI[(idx // 10) % len(_GI)]
+            kind = gsteer[0]
         elif mode == 3:
             # steered sibling run: a twin/cousin of the main object makes a checked call first,
             # then the main object makes the same kind of call on the same message
@@ -1182,13 +1236,16 @@ class C10(Machine):
         else:
             kind = rng.choices(_KNAMES, _KW)[0]
         fsteer = fsteer if mode == 2 else None
-        faulty = rng.random() >= 0.4 or fsteer is not None
+        gsteer = gsteer if idx % 10 == 4 else None
+        faulty = rng.random() >= 0.4 or fsteer is not None or gsteer is not None
         fk = {"bad_call": False, "abandon": False, "interrupt": False, "collab_fail": False}
         if faulty:
             for n in fk:
                 fk[n] = rng.random() < 0.55
             if not any(fk.values()):
                 fk[rng.choice(sorted(fk))] = True
+        if gsteer is not None:
+            fk["abandon"] = True
         if fsteer is not None:
             fk["collab_fail" if fsteer[2] == "collab" else "interrupt"] = True
             if KINDS[kind][2][fsteer[1]][0] == ABN:
@@ -1216,6 +1273,7 @@ class C10(Machine):
                 import copy as _copy
                 rec = _copy.deepcopy(pb.plan["objects"][o])
                 sinfo = dict(info)
+                sinfo["open_gens"] = []
                 if kind == "HMAC":
                     rec["key"] = B(rbytes(rng, rng.choice([1, 16, info["bb"], info["bb"] + 1])))
                 else:
@@ -1268,6 +1326,24 @@ class C10(Machine):
                 if n:
                     emit(x, c0, n)
             emit(x, c0, steer[3])
+        elif gsteer is not None:
+            core0 = len(pb.clients[c0])
+            emit(x, c0, gsteer[1])
+            x.open_gens[:] = x.open_gens or [t["id"] for t in pb.clients[c0] if t.get("cls") == ABN and t["k"] == "call"][-1:]
+            # growing sizes: the first checked call on a short message, the second on the longest
+            pool = x.pool
+            by_len = sorted(pool, key=len)
+            grow = rng.random() < 0.6
+            if grow:
+                x.pool = by_len[:2]
+            emit(x, c0, gsteer[2])
+            emit(x, c0, "resume")
+            if grow:
+                x.pool = by_len[-1:]
+            emit(x, c0, gsteer[3])
+            x.pool = pool
+            for t in pb.clients[c0][core0:]:
+                t["core"] = True          # the random fault plan leaves the steered pattern alone
         elif mode == 3 and sib is not None:
             pool = x.pool
             one = [pool[rng.randrange(len(pool))]]
@@ -1317,7 +1393,7 @@ class C10(Machine):
                 emit(tgt, c, rng.choice(tnames))
         plan = pb.finish(rng)
         # fault plan: interrupts / collaborator failures on 1-2 call steps
-        calls = [s for s in plan["steps"] if s["k"] in ("call", "pull") and s.get("cls") != BAD]
+        calls = [s for s in plan["steps"] if s["k"] in ("call", "pull") and s.get("cls") != BAD and not s.get("core")]
         nf = 0
         if fk["interrupt"] and calls:
             for s in rng.sample(calls, min(len(calls), rng.choice([1, 1, 2]))):
@@ -1439,7 +1515,7 @@ class C10(Machine):
         return vs, probes, "|".join(trace), nontrivial, extra
 
     def totals(self):
-        return {"bigrams_total": len(_BI), "trigrams_total": len(_TRI), "fault_bigrams_total": len(_FB)}
+        return {"bigrams_total": len(_BI), "trigrams_total": len(_TRI), "fault_bigrams_total": len(_FB), "generator_interleavings_total": len(_GI)}
 
     # -----------------------------------------------------------------------------------------
     @staticmethod
